@@ -294,11 +294,18 @@ def c16(run, args):
     rng = random.Random(run.seed)
     vh = run.build_harness()
     run.model_check("MCMailstore", MC_CFG % dict(caps="0, 1, 2", limits="0, 3", maxadds=3 if quick else 4), label="MCMailstore(caps x limits)")
-    bfs = run.generate("GenMailstore", gen_cfg(2, [1, 2], [1], 4 if quick else 5, scan=True, seen=False))
+    bfs = run.generate("GenMailstore", gen_cfg(2, [1, 2], [1], 4, scan=True, seen=False))
+    # thorough: every depth-4 sequence under every limit combination, and a seed-chosen sample of the depth-5 sequences
+    # (all ~94 000 of them under nine combinations would be ~10 M trace events) under one rotating combination each
+    bfs5 = []
+    if not quick:
+        bfs5 = [b for b in run.generate("GenMailstore", gen_cfg(2, [1, 2], [1], 5, scan=True, seen=False)) if len(b) == 5]
+        rng.shuffle(bfs5)
+        bfs5 = bfs5[:15000]
     sim = run.generate("GenMailstore", gen_cfg(3, [1, 2, 3], [1], 40 if quick else 100, scan=True, seen=False),
                        simulate={"num": 100, "depth": 41 if quick else 101})
     sim = sim[:40 if quick else 400]
-    count_distinct(run, bfs + sim)
+    count_distinct(run, bfs + bfs5 + sim)
     run.cov["exhaustive"] = True
     mem_cfgs = [(c, k) for c in (0, 1, 2) for k in (0, 4)]
     file_cfgs = [(c, 0) for c in (0, 1, 2)]
@@ -309,11 +316,12 @@ def c16(run, args):
 
     plain = [["alpha", "beta", "gamma"], ["inbox1", "inbox2", "inbox3"]]
 
-    def mk(abstract, label, hold, probe_every):
+    def mk(abstract, label, hold, probe_every, one_cfg=False):
         out = []
         for i, ops in enumerate(abstract):
             for st in ("mem", "file"):
-                for (cap, maxkb) in cfgs_for(i, st):
+                all_ = mem_cfgs if st == "mem" else file_cfgs
+                for (cap, maxkb) in ([all_[(i + run.seed) % len(all_)]] if one_cfg else cfgs_for(i, st)):
                     o = [dict(x, size=x["size"] * 1000) for x in ops]
                     out.append({"id": "%s-%d-%s-c%dk%d-h%d" % (label, i, st, cap, maxkb, hold), "store": st, "cap": cap, "maxkb": maxkb,
                                 "names": plain[i % 2], "events": True, "hold_ms": hold, "ops": o})
@@ -348,7 +356,8 @@ def c16(run, args):
     # (m) multi-recipient transactions, also refused ones
     beh = mk(bfs, "bfs", 0, 0) + mk(bfs[run.seed % 7::7], "ord", 2, 0) + mk(sim, "sim", 0, 0) + mk(sim[::4], "simord", 1, 0)
     mb_ = multi(bfs)
-    beh += mk(mb_[run.seed % 2::2] if quick else mb_, "multi", 0, 0) + mk(mb_[run.seed % 9::9], "multiord", 1, 0) + mk(multi(sim), "multisim", 0, 0)
+    beh += mk(mb_[run.seed % 2::2] if quick else mb_, "multi", 0, 0, one_cfg=not quick) + mk(mb_[run.seed % 9::9], "multiord", 1, 0, one_cfg=not quick) + mk(multi(sim), "multisim", 0, 0)
+    beh += mk(bfs5, "bfs5", 0, 0, one_cfg=True)
     run.cov["samples"] = [bfs[len(bfs) // 3], sim[0][:12]] if bfs and sim else []
     replay_and_validate(run, vh, beh, "c16", "C16 after-events")
     # (c) removals racing each other: several clients remove / purge the same messages at the same moment (web UI against REST
